@@ -136,3 +136,45 @@ cfn("sparse_image.c:sparse_localmaxlabel",
     iteration_counters={"pnext++": "counts the steps of the walk `while (iMV[p] != p) p = iMV[p]`; it can only overflow if that walk "
                                    "runs more than 2^31 steps, i.e. does not terminate (termination is not proved)"},
     props=["C20"])
+
+# ---------------------------------------------------------------- sparse connected pixels (row-above pointer walk + disjoint sets)
+from . import c_blobs  # noqa  (dset_wf, dset_cnt)
+SINV = ["dset_wf(S)", "S[0] <= max_(16384, 2*dset_cnt(S) + 6)", "alive(S)"]
+LAB = "forall(0, %s, lambda t: And_(defined(labels, t), 0 <= labels[t], labels[t] <= dset_cnt(S)))"
+ZIFF = "forall(0, %s, lambda t: (labels[t] == 0) == (v[t] <= threshold))"
+INNER = SINV + ["0 <= k", "k < nnz", "dset_cnt(S) <= k", LAB % "k + 1", "0 <= pp", "pp <= k", "isdef('pp')", "ir == i[k] - 1", "isdef('ir')"] \
+    + T("C11", ZIFF % "k", "v[k] > threshold")
+cfn("sparse_image.c:sparse_connectedpixels",
+    lens={"v": "nnz", "i": "nnz", "j": "nnz", "labels": "nnz"}, defined={"labels": False}, outputs={"labels": "0..nnz"}, assigns=["labels"],
+    requires=["nnz >= 0", "nnz <= 2**28"],
+    wellformed="at most 2^28 pixels (the label table doubles up to 2^30 entries)",
+    loops={0: SINV + ["dset_cnt(S) <= k", LAB % "k", "0 <= pp", "pp <= k", "isdef('pp')"] + T("C11", ZIFF % "k"),
+           1: INNER,
+           2: INNER,
+           3: INNER + ["pp <= p", "p <= k", "isdef('p')"],
+           5: ["alive(T)", "len_(T) == dset_cnt(S) + 3", "alive(S)", "dset_wf(S)", "0 <= np", "np <= dset_cnt(S)", "isdef('np')",
+               "forall(1, dset_cnt(S) + 1, lambda q: And_(defined(T, q), 1 <= T[q], T[q] <= np))",
+               "forall(0, k, lambda t: And_(defined(labels, t), 0 <= labels[t], labels[t] <= np))",
+               "forall(k, nnz, lambda t: And_(defined(labels, t), 0 <= labels[t], labels[t] <= dset_cnt(S)))"] + T("C11", ZIFF % "nnz")},
+    ensures=["0 <= result", "forall(0, nnz, lambda t: And_(0 <= labels[t], labels[t] <= result))"] + T("C11", ZIFF % "nnz"),
+    props=["C11", "C20"])
+
+PZ = "lambda t: (i[t] + 1)*(jmax + 2) + j[t] + 1"
+def _cells(n, hi):
+    rng = lambda a: "0 <= Z[%s]" % a + ", Z[%s] <= %s" % (a, hi)
+    return ("forall(0, %s, lambda t: And_(%s))" % (n, ", ".join(rng(a) for a in
+            ("pz(t)", "pz(t) - 1", "pz(t) - (jmax + 2) - 1", "pz(t) - (jmax + 2)", "pz(t) - (jmax + 2) + 1"))))
+SPL_IN = ["0 <= k", "k < nnz", "jdim == jmax + 2", "ik == i[k] + 1", "jk == j[k] + 1", "p == ik*jdim + jk", "ir == (ik - 1)*jdim + jk",
+          "isdef('ik')", "isdef('jk')", "isdef('p')", "isdef('ir')"]
+cfn("sparse_image.c:sparse_connectedpixels_splat",
+    lens={"v": "nnz", "i": "nnz", "j": "nnz", "labels": "nnz", "Z": "(imax + 2)*(jmax + 2)"}, assigns=["labels", "Z"],
+    requires=["nnz >= 0", "nnz <= 2**28", "imax >= 1", "jmax >= 1", "(imax + 2)*(jmax + 2) <= INT_MAX",
+              "forall(0, nnz, lambda t: And_(i[t] < imax, j[t] < jmax))"],
+    locals={"pz": PZ},
+    wellformed="pixel coordinates inside the declared imax x jmax shape; Z holds (imax+2)*(jmax+2) integers; at most 2^28 pixels",
+    loops={0: ["jdim == jmax + 2", "alive(S)", "dset_wf(S)", "dset_cnt(S) == 0", "S[0] == 16384", _cells("k", "0")],
+           1: SINV + ["jdim == jmax + 2", "dset_cnt(S) <= k", _cells("nnz", "dset_cnt(S)")],
+           4: ["jdim == jmax + 2", "alive(T)", "len_(T) == dset_cnt(S) + 3", "alive(S)", "dset_wf(S)", "0 <= np", "np <= dset_cnt(S)", "isdef('np')",
+               "forall(1, dset_cnt(S) + 1, lambda q: And_(defined(T, q), 1 <= T[q], T[q] <= np))", _cells("nnz", "dset_cnt(S)")]},
+    ensures=["0 <= result"],
+    props=["C11", "C20"])
